@@ -15,6 +15,6 @@ CONSTANTS
   Menu = {{}, {0}, {0, 1}}
   Moods = {"quiet", "plain", "reorg"}
   MaxReorgs = 2
-  Fams = {"att", "sync", "bids"}
-INVARIANTS TypeOK RunningLeftTable AttestedBounded SubsBounded RootsBounded RecordsBounded BidsBounded JobsBounded PendingExact
+  Fams = {"att"}
+INVARIANTS NeverReschedOverRunning
 CHECK_DEADLOCK FALSE
